@@ -170,6 +170,10 @@ SUMMARY = {
     "C15-I": ("StreamReaderBufferedProtocol._wait_for_data(): rescue keyed on `__external_buffer_view is not None`, which buffer_updated() has already reset", "BufferedStreamProtocol server, handler yielding a timeout, request bytes read in the same loop iteration as the expiry, handler carries on"),
     "C16-I": ("AsyncDatagramServer.serve(): one queue condition shared by all _ClientData → notify() wakes another client's waiter", "≥ 2 clients whose generators wait on `yield` at the same time and a datagram for the one that is not the longest waiter"),
     "C18-I": ("_run_sync_or_else(): contextlib.suppress(RuntimeError, CancelledError) swallows the BusyResourceError refusal of server_close()", "standalone server, server_close() from another thread while serve_forever() is still in its set-up phase"),
+    "C11-I": ("TCPNetworkClient.send_packet: `with lock_with_timeout(...) as timeout` loses its `as timeout` → the send gets the full T after the lock wait", "two threads on one sync TCP client: send-lock wait 0 < w < T, then the send itself stalls"),
+    "C12-I": ("AsyncTLSStreamTransport.send_all_from_iterable: encrypt-and-flush one chunk at a time (same idea as C08-F)", "two tasks sending directly on one TLS transport, first message ≥ 2 chunks and suspended in the flush of a non-last chunk"),
+    "C14-I": ("AsyncioTransportStreamSocketAdapter.aclose(): try/except/finally → `with suppress(OSError): write_eof(); close()` (close skipped when the half-close raises)", "peer reset while the transport has paused reading (> 256 KiB unread), then aclose(): write_eof() → ENOTCONN"),
+    "C17-I": ("AsyncTLSListener.serve(): wrap() options hoisted into a partial with handshake_timeout=self.__shutdown_timeout", "TLS server with a non-default ssl_handshake_timeout and a client that stalls its handshake"),
     "C19-I": ("connect_socket() swallows CancelledError when getpeername() succeeds + create_stream_connection() bypasses the race for a single address (two sites, each harmless alone)", "host resolving to ONE address, caller cancelled after the handshake finished but before the task resumes"),
 }
 
